@@ -188,6 +188,26 @@ def spec_builtin(I, st, name, args, kwargs, node):
         m, k, v = args
         base = m.ty
         return Val(base, (z3.Store(m.term[0], k.term, True), z3.Store(m.term[1], k.term, I.coerce(st, v, base[2]).term)))
+    if name == "mmap_add":
+        # pointwise m + d1 + d2 + ... over all keys (d_i dict refs or math maps; missing keys count 0)
+        m = args[0]
+        base = m.ty
+        k = z3.FreshConst(sort_of(base[1]), "k")
+        kv = Val(base[1], k)
+        tot = z3.Select(m.term[1], k)
+        for d in args[1:]:
+            sign = 1
+            tot = tot + spec_builtin(I, st, "at", [d, kv], {}, node).term
+        return Val(base, (z3.K(sort_of(base[1]), TRUE), st.deflam([k], tot)))
+    if name == "mmap_sub":
+        m = args[0]
+        base = m.ty
+        k = z3.FreshConst(sort_of(base[1]), "k")
+        kv = Val(base[1], k)
+        tot = z3.Select(m.term[1], k)
+        for d in args[1:]:
+            tot = tot - spec_builtin(I, st, "at", [d, kv], {}, node).term
+        return Val(base, (z3.K(sort_of(base[1]), TRUE), st.deflam([k], tot)))
     if name == "mkval":
         nm = node.args[0].value
         dt, fields = REG.vals[nm]
